@@ -2,6 +2,16 @@
 // (lock / unlock / deferred unlock / field reads and writes / clone / calls on the receiver / returns)
 // of every method of the given receiver type in one file, and prints them as a Lean constant.
 // It fails closed: any statement shape it does not understand aborts the extraction.
+//
+// To keep the extracted protocol stable under behaviour-preserving refactorings
+//   - fields can be given role names by their type (-roles "K=sync.Mutex,index=*radixtree.Tree"): a field whose type
+//     starts with the given text gets the name $<role> if it is the only such field,
+//   - the local variable bound to the result of a call on a shared field (x := r.index.Clone()) is printed as
+//     $<method> in lower case ($clone), whatever it is called in the source,
+//   - calls of unexported methods of the same receiver type whose bodies (transitively) touch a mutex or a shared
+//     field are inlined at the call site (parameters replaced by the printed arguments); a return inside such a
+//     helper which is not its last statement is reported as event "inline-return" (not understood by the model),
+//   - any other identifier returned as last result is printed as "return var", nil as "return nil".
 package main
 
 import (
@@ -18,9 +28,41 @@ import (
 type extractor struct {
 	recv    string
 	closure int
+	inline  int
 	events  []string
 	mutexes map[string]bool
 	fields  map[string]bool
+	alias   map[string]string        // local name -> canonical text
+	roles   map[string]string        // field name -> printed name
+	decls   map[string]*ast.FuncDecl // methods of the receiver type
+	touches map[string]bool          // methods whose bodies reach a mutex or a shared field
+
+	lastOfInlined map[*ast.ReturnStmt]bool
+}
+
+func (e *extractor) fname(n string) string {
+	if r, ok := e.roles[n]; ok {
+		return r
+	}
+
+	return n
+}
+
+func (e *extractor) str(x ast.Expr) string {
+	switch v := x.(type) {
+	case *ast.Ident:
+		if a, ok := e.alias[v.Name]; ok {
+			return a
+		}
+
+		return v.Name
+	case *ast.SelectorExpr:
+		return e.str(v.X) + "." + v.Sel.Name
+	case *ast.CallExpr:
+		return e.str(v.Fun) + "(..)"
+	default:
+		return "_"
+	}
 }
 
 func (e *extractor) emit(format string, args ...any) {
@@ -81,7 +123,7 @@ func (e *extractor) expr(fset *token.FileSet, x ast.Expr) {
 		if parts, ok := e.chain(v.Fun); ok {
 			switch {
 			case len(parts) == 2 && e.mutexes[parts[0]]:
-				e.emit("%s %s", strings.ToLower(parts[1]), parts[0])
+				e.emit("%s %s", strings.ToLower(parts[1]), e.fname(parts[0]))
 
 				return
 			case len(parts) == 2 && e.fields[parts[0]]:
@@ -89,8 +131,12 @@ func (e *extractor) expr(fset *token.FileSet, x ast.Expr) {
 					e.expr(fset, a)
 				}
 
-				e.emit("read %s", parts[0])
-				e.emit("call %s.%s", parts[0], parts[1])
+				e.emit("read %s", e.fname(parts[0]))
+				e.emit("call %s.%s", e.fname(parts[0]), parts[1])
+
+				return
+			case len(parts) == 1 && e.touches[parts[0]]:
+				e.inlineCall(fset, v, e.decls[parts[0]])
 
 				return
 			case len(parts) == 1:
@@ -100,7 +146,7 @@ func (e *extractor) expr(fset *token.FileSet, x ast.Expr) {
 
 				arg0 := "-"
 				if len(v.Args) > 0 {
-					arg0 = exprString(v.Args[0])
+					arg0 = e.str(v.Args[0])
 					if _, rooted := e.chain(v.Args[0]); rooted {
 						e.expr(fset, v.Args[0])
 					}
@@ -123,7 +169,7 @@ func (e *extractor) expr(fset *token.FileSet, x ast.Expr) {
 				fail(fset, v, "mutex used outside a lock call")
 			}
 
-			e.emit("read %s", parts[0])
+			e.emit("read %s", e.fname(parts[0]))
 
 			return
 		}
@@ -185,7 +231,7 @@ func (e *extractor) stmt(fset *token.FileSet, s ast.Stmt) {
 		e.expr(fset, v.X)
 	case *ast.DeferStmt:
 		if parts, ok := e.chain(v.Call.Fun); ok && len(parts) == 2 && e.mutexes[parts[0]] {
-			e.emit("defer %s %s", strings.ToLower(parts[1]), parts[0])
+			e.emit("defer %s %s", strings.ToLower(parts[1]), e.fname(parts[0]))
 
 			return
 		}
@@ -200,14 +246,18 @@ func (e *extractor) stmt(fset *token.FileSet, s ast.Stmt) {
 			if parts, ok := e.chain(l); ok && len(parts) >= 1 {
 				src := "-"
 				if len(v.Rhs) == 1 {
-					src = exprString(v.Rhs[0])
+					src = e.str(v.Rhs[0])
 				}
 
-				e.emit("write %s %s", parts[0], src)
+				e.emit("write %s %s", e.fname(parts[0]), src)
 			} else if id, isIdent := l.(*ast.Ident); isIdent && len(v.Rhs) == 1 {
 				if call, isCall := v.Rhs[0].(*ast.CallExpr); isCall {
 					if parts, rooted := e.chain(call.Fun); rooted && len(parts) == 2 && e.fields[parts[0]] {
-						e.emit("bind %s %s.%s", id.Name, parts[0], parts[1])
+						if len(v.Lhs) == 1 && id.Name != "_" {
+							e.alias[id.Name] = "$" + strings.ToLower(parts[1])
+						}
+
+						e.emit("bind %s %s.%s", e.str(id), e.fname(parts[0]), parts[1])
 					}
 				}
 			}
@@ -243,13 +293,23 @@ func (e *extractor) stmt(fset *token.FileSet, s ast.Stmt) {
 
 		if n := len(v.Results); n > 0 {
 			if id, ok := v.Results[n-1].(*ast.Ident); ok {
-				kind = "return " + id.Name
+				if id.Name == "nil" {
+					kind = "return nil"
+				} else {
+					kind = "return var"
+				}
 			} else {
 				kind = "return value"
 			}
 		}
 
-		if e.closure == 0 {
+		switch {
+		case e.closure > 0:
+		case e.inline > 0:
+			if !e.lastOfInlined[v] {
+				e.emit("inline-return")
+			}
+		default:
 			e.emit("%s", kind)
 		}
 	case *ast.RangeStmt:
@@ -307,6 +367,119 @@ func (e *extractor) stmt(fset *token.FileSet, s ast.Stmt) {
 	}
 }
 
+// inlineCall emits the events of the body of a helper method of the receiver at the call site
+func (e *extractor) inlineCall(fset *token.FileSet, call *ast.CallExpr, fd *ast.FuncDecl) {
+	if e.inline > 8 {
+		fail(fset, call, "helper methods nested too deeply (recursion?)")
+	}
+
+	// arguments are evaluated at the call site
+	var params []string
+
+	for _, p := range fd.Type.Params.List {
+		for _, n := range p.Names {
+			params = append(params, n.Name)
+		}
+	}
+
+	if len(params) != len(call.Args) {
+		fail(fset, call, "helper method with variadic or unnamed parameters")
+	}
+
+	sub := &extractor{
+		recv: "_", mutexes: e.mutexes, fields: e.fields, roles: e.roles, decls: e.decls, touches: e.touches,
+		alias: map[string]string{}, inline: e.inline + 1, closure: e.closure, lastOfInlined: e.lastOfInlined,
+	}
+
+	if len(fd.Recv.List[0].Names) == 1 {
+		sub.recv = fd.Recv.List[0].Names[0].Name
+	}
+
+	for i, a := range call.Args {
+		e.expr(fset, a)
+		sub.alias[params[i]] = e.str(a)
+	}
+
+	if n := len(fd.Body.List); n > 0 {
+		if ret, ok := fd.Body.List[n-1].(*ast.ReturnStmt); ok {
+			e.lastOfInlined[ret] = true
+		}
+	}
+
+	sub.events = e.events
+	sub.block(fset, fd.Body.List)
+	e.events = sub.events
+}
+
+// rooted reports whether the body mentions a mutex or shared field of its receiver, or calls a method that does
+func computeTouches(decls map[string]*ast.FuncDecl, mutexes, fields map[string]bool) map[string]bool {
+	direct := map[string]bool{}
+	calls := map[string][]string{}
+
+	for name, fd := range decls {
+		recv := ""
+		if len(fd.Recv.List[0].Names) == 1 {
+			recv = fd.Recv.List[0].Names[0].Name
+		}
+
+		ast.Inspect(fd.Body, func(n ast.Node) bool {
+			sel, ok := n.(*ast.SelectorExpr)
+			if !ok {
+				return true
+			}
+
+			if id, isIdent := sel.X.(*ast.Ident); isIdent && id.Name == recv && recv != "" {
+				switch {
+				case mutexes[sel.Sel.Name] || fields[sel.Sel.Name]:
+					direct[name] = true
+				case decls[sel.Sel.Name] != nil:
+					calls[name] = append(calls[name], sel.Sel.Name)
+				}
+			}
+
+			return true
+		})
+	}
+
+	for changed := true; changed; {
+		changed = false
+
+		for name, cs := range calls {
+			if direct[name] {
+				continue
+			}
+
+			for _, c := range cs {
+				if direct[c] {
+					direct[name] = true
+					changed = true
+				}
+			}
+		}
+	}
+
+	return direct
+}
+
+func typeString(x ast.Expr) string {
+	switch v := x.(type) {
+	case *ast.Ident:
+		return v.Name
+	case *ast.SelectorExpr:
+		return typeString(v.X) + "." + v.Sel.Name
+	case *ast.StarExpr:
+		return "*" + typeString(v.X)
+	case *ast.ArrayType:
+		return "[]" + typeString(v.Elt)
+	case *ast.IndexExpr:
+		return typeString(v.X) + "[" + typeString(v.Index) + "]"
+	case *ast.MapType:
+		return "map[" + typeString(v.Key) + "]" + typeString(v.Value)
+	default:
+		return "_"
+	}
+}
+
 func leanString(s string) string {
 	return "\"" + strings.ReplaceAll(strings.ReplaceAll(s, "\\", "\\\\"), "\"", "\\\"") + "\""
 }
@@ -317,6 +490,8 @@ func main() {
 	name := flag.String("name", "protocol", "Lean constant name")
 	ns := flag.String("namespace", "Heimdall.Gen", "Lean namespace")
 	methodsFlag := flag.String("methods", "", "comma separated method names (default: all)")
+	rolesFlag := flag.String("roles", "", "comma separated role=type-prefix pairs: a field whose type starts with "+
+		"the prefix is printed as $role if it is the only such field")
 	flag.Parse()
 
 	fset := token.NewFileSet()
@@ -329,6 +504,7 @@ func main() {
 
 	mutexes := map[string]bool{}
 	fields := map[string]bool{}
+	ftypes := map[string]string{}
 	found := false
 
 	ast.Inspect(f, func(n ast.Node) bool {
@@ -345,8 +521,10 @@ func main() {
 		found = true
 
 		for _, fld := range st.Fields.List {
-			t := exprString(fld.Type)
+			t := typeString(fld.Type)
 			for _, nm := range fld.Names {
+				ftypes[nm.Name] = t
+
 				if strings.HasSuffix(t, "Mutex") {
 					mutexes[nm.Name] = true
 				} else {
@@ -369,6 +547,47 @@ func main() {
 			want[m] = true
 		}
 	}
+
+	roles := map[string]string{}
+
+	for _, rp := range strings.Split(*rolesFlag, ",") {
+		role, prefix, ok := strings.Cut(rp, "=")
+		if !ok {
+			continue
+		}
+
+		var hits []string
+
+		for nm, t := range ftypes {
+			if strings.HasPrefix(t, prefix) {
+				hits = append(hits, nm)
+			}
+		}
+
+		if len(hits) == 1 {
+			roles[hits[0]] = "$" + role
+		}
+	}
+
+	decls := map[string]*ast.FuncDecl{}
+
+	for _, d := range f.Decls {
+		fd, ok := d.(*ast.FuncDecl)
+		if !ok || fd.Recv == nil || len(fd.Recv.List) != 1 || fd.Body == nil {
+			continue
+		}
+
+		rt := fd.Recv.List[0].Type
+		if st, isStar := rt.(*ast.StarExpr); isStar {
+			rt = st.X
+		}
+
+		if id, isIdent := rt.(*ast.Ident); isIdent && id.Name == *typ {
+			decls[fd.Name.Name] = fd
+		}
+	}
+
+	touches := computeTouches(decls, mutexes, fields)
 
 	type method struct {
 		name   string
@@ -401,7 +620,10 @@ func main() {
 			recv = fd.Recv.List[0].Names[0].Name
 		}
 
-		e := &extractor{recv: recv, mutexes: mutexes, fields: fields}
+		e := &extractor{
+			recv: recv, mutexes: mutexes, fields: fields, alias: map[string]string{}, roles: roles, decls: decls,
+			touches: touches, lastOfInlined: map[*ast.ReturnStmt]bool{},
+		}
 		e.block(fset, fd.Body.List)
 		methods = append(methods, method{fd.Name.Name, e.events})
 	}
@@ -410,6 +632,10 @@ func main() {
 
 	var mnames []string
 	for m := range mutexes {
+		if r, ok := roles[m]; ok {
+			m = r
+		}
+
 		mnames = append(mnames, m)
 	}
 
